@@ -21,11 +21,14 @@ from corr import C08_world as W
 
 PROPERTY = "C08"
 RULE = ("operations in the simplified form (tree of response-keyed fields, each resolver sync / deferred / "
-        "deferred-returning-a-deferred, outcome value | null | list | object | ResolverError | unexpected exception | "
+        "deferred-returning-a-deferred / future already finished (or failed) when the executor receives it, top level written "
+        "plainly, inside an inline fragment or as one fragment spread, outcome value | null | list | object | ResolverError | unexpected exception | "
         "unserialisable value, nullable / non-null / list typing): bounded-exhaustive over 1-2 top-level fields x 3 modes x "
         "9 outcome shapes, then seeded random trees; every operation runs under all four configurations and, for the two "
         "deferred runtimes, under ALL completion orders when it has <= 4 (quick) / <= 6 (thorough) tasks, else FIFO + LIFO + "
-        "random orders. distinct non-trivial = distinct (operation, schedule) with >= 1 deferred task")
+        "random orders; plus REAL ThreadPoolExecutor pools with 1 and 2 workers, resolvers still in flight when callbacks are attached, "
+        "nested futures submitted from pool tasks, hard 4 s timeout = failing case. "
+        "distinct non-trivial = distinct (operation, schedule) with >= 1 deferred task")
 ASSUMPTIONS = [
     "completions are atomic: a task's completion and all callbacks/continuations it triggers run before the next completion "
     "(manual executor; asyncio loop drained to quiescence between completions)",
@@ -36,8 +39,10 @@ ASSUMPTIONS = [
 TRUSTED = [
     "concurrent.futures.Future semantics (callbacks run synchronously at completion, exceptions in callbacks swallowed, "
     "set_result on a finished future raises InvalidStateError) and asyncio.gather/await ordering are modelled, not verified",
+    "asyncio + an already finished awaitable: it is only looked at when the loop next runs, so call order and task numbering "
+    "differ from the callback model; those cases are compared by the direct oracle only (data, errors, completion), not with the model trace",
     "NOT exhibited by the model or the controlled scheduler: true parallel interleaving of callback *bodies* on different "
-    "worker threads (the non-atomic `done += 1` read-modify-write in gather_futures). Only a short real-thread smoke run touches it.",
+    "worker threads (the non-atomic `done += 1` read-modify-write in gather_futures). The real 1-/2-worker pool stage exercises real threads (decisive for deadlocks, smoke for races).",
 ]
 
 CONFIGS = ("blocking", "generic-blocking", "asyncio", "threadpool")
@@ -252,6 +257,15 @@ class Checker:
             return any(f[0] == what and f[1] == config for f in self.failures_of(c, cap=24))
         small = W.shrink(case, still, budget=20 if what == "never-completes" else 120)
         sf = [f for f in self.failures_of(small, cap=100) if f[0] == what and f[1] == config] or fails
+        if what == "never-completes" or "Watchdog" in str(sf[0][3]):
+            # the watchdog is wall-clock: under machine load it can fire on a healthy run. Report only what a
+            # run with a long timeout confirms.
+            if not W.confirm_hang(small, config, sf[0][2]):
+                if small is case or not W.confirm_hang(case, config, fails[0][2]):
+                    ctx.notes.append("watchdog fired but the confirmation run completed (machine load): not a failure")
+                    ctx.stat("watchdog-unconfirmed")
+                    return True
+                small, sf = case, fails
         sig = "%s:%s:%s:%s" % (self.prop.lower(), what, config, "+".join(sorted(W.features(small))))
         ctx.fail(sig, "%s (%s)" % (sf[0][3], config),
                  {"case": small, "config": config, "schedule": sf[0][2], "what": what, "document": W.document(small)})
@@ -441,6 +455,24 @@ def real_pool_stage(ctx, prop, extra_oracle=None, n_random=4, kinds=None):
                     res = fut.result(timeout=4)
                     obs = W.obs_of_result(w, result=res, status="ok")
                 except concurrent.futures.TimeoutError:
+                    # wall-clock timeout: confirm with a fresh pool and a long timeout before reporting (machine load)
+                    try:
+                        rt._inner.shutdown(wait=False, cancel_futures=True)
+                    except TypeError:
+                        rt._inner.shutdown(wait=False)
+                    rt = ThreadPoolRuntime(max_workers=workers)
+                    w = RealWorld(case)
+                    try:
+                        fut = process_graphql_query(schema, doc, context=w, runtime=rt, executor_cls=Executor, validators=[])
+                        fut.result(timeout=25)
+                        ctx.stat("watchdog-unconfirmed")
+                        ctx.notes.append("real pool: 4 s timeout not confirmed by the 25 s run (machine load)")
+                        continue
+                    except concurrent.futures.TimeoutError:
+                        pass
+                    except Exception:  # noqa
+                        ctx.stat("watchdog-unconfirmed")
+                        continue
                     ctx.fail("%s:never-completes:%s:%s" % (prop.lower(), cfg, feats),
                              "real pool with %d worker(s): no result within 4 s (a worker is blocked / the result future is never set)" % workers,
                              detail)
